@@ -1,4 +1,202 @@
-(* C16 — placeholder while the proofs are being developed *)
-From AV Require Import Lib.Base Files.PathBuf Files.Range Files.Named Files.ChunkedRead.
-Example C16_example : utf8_valid [195; 169] = true.
-Proof. reflexivity. Qed.
+(* C16 — Static file serving stays inside its root and answers ranges exactly.
+   Only statements here; proofs live in Files/PathBufProofs.v and Files/RangeProofs.v.
+   Models: Files/PathBuf.v (PathBufWrap::parse_path), Files/Range.v (http-range as wrapped by
+   actix-files), Files/Named.v (NamedFile::into_response, repaired by fixes/F8.patch),
+   Files/ChunkedRead.v (ChunkedReadFile). *)
+From AV Require Import Lib.Base Gen.Consts.
+From AV Require Import Files.PathBuf Files.PathBufSpec Files.PathBufProofs.
+From AV Require Import Files.Range Files.Named Files.ChunkedRead Files.RangeProofs.
+
+(* ---------------------------------------------------------------- (1) no traversal ------------- *)
+
+(* Whatever the request path (any bytes), whatever the UTF-8 validity test, on Unix and on Windows,
+   with hidden files allowed or not: an accepted path is a list of NORMAL segments — non-empty, not
+   "." or "..", without '/' (and on Windows without '\' and ':'); with hidden files off no segment
+   starts with '.'. *)
+Theorem C16_no_traversal :
+  forall (valid_utf8 : bytes -> bool) (windows hidden : bool) (path : bytes) (segs : list bytes),
+  parse_path valid_utf8 windows hidden path = Val (POk segs) ->
+  Forall normal_seg segs /\ (windows = true -> Forall windows_seg segs) /\
+  (hidden = false -> Forall (fun s => starts_with DOT s = false) segs).
+Proof.
+  intros v w h path segs H. pose proof (parse_path_spec v w h path) as S. rewrite H in S.
+  destruct S as (A & _). split; [|split].
+  - eapply Forall_impl; [|exact A]. intros s Hs. apply Hs.
+  - intro W. eapply Forall_impl; [|exact A]. intros s Hs. apply Hs. exact W.
+  - intro W. eapply Forall_impl; [|exact A]. intros s Hs. apply Hs. exact W.
+Qed.
+
+(* Hence the path the service opens, `directory.join(path_on_disk)` (std Unix semantics: an absolute
+   argument would REPLACE the directory), has exactly the components of the directory followed by
+   plain names: no RootDir, no "..", no ".": it is lexically under the configured directory. *)
+Theorem C16_joined_path_under_root :
+  forall (valid_utf8 : bytes -> bool) (windows hidden : bool) (path root : bytes) (segs : list bytes),
+  parse_path valid_utf8 windows hidden path = Val (POk segs) ->
+  components (join root (render segs)) = components root ++ map CNormal segs /\
+  lexically_under root (join root (render segs)).
+Proof.
+  intros v w h path root segs H. destruct (C16_no_traversal v w h path segs H) as (N & _).
+  split; [apply join_under_root; exact N|]. exists segs. split; [exact N|apply join_under_root; exact N].
+Qed.
+
+(* Neither assert! of parse_path fires and `segment_count -= 1` never underflows: no input panics. *)
+Theorem C16_asserts_hold :
+  forall (valid_utf8 : bytes -> bool) (windows hidden : bool) (path : bytes),
+  parse_path valid_utf8 windows hidden path <> Panic.
+Proof.
+  intros v w h path E. pose proof (parse_path_spec v w h path) as S. rewrite E in S. exact S.
+Qed.
+
+(* Decoding happens once: every accepted segment is literally one of the '/'-separated pieces of
+   the once-decoded path (nothing is decoded again later), and no separator came out of an escape
+   (the decoded string has as many '/' as the raw one, so "%2f" never splits a segment). *)
+Theorem C16_decode_once :
+  forall (valid_utf8 : bytes -> bool) (windows hidden : bool) (path : bytes) (segs : list bytes),
+  parse_path valid_utf8 windows hidden path = Val (POk segs) ->
+  (forall s, In s segs -> In s (split_on SLASH (pct_decode path))) /\
+  count_byte SLASH (pct_decode path) = count_byte SLASH path.
+Proof.
+  intros v w h path segs H. pose proof (parse_path_spec v w h path) as S. rewrite H in S.
+  destruct S as (_ & B & C). split; assumption.
+Qed.
+
+(* concrete behaviour on the classic attacks (hex: "/../a" ; "/%2e%2e/a" ; "/a%2f..%2fb" ;
+   "/%252e%252e/a" ; "/%c0%af" overlong slash) *)
+Example C16_example_paths :
+  parse_path utf8_valid false false [47;46;46;47;97] = Val (POk [[97]]) /\
+  parse_path utf8_valid false false [47;37;50;101;37;50;101;47;97] = Val (POk [[97]]) /\
+  parse_path utf8_valid false false [47;97;37;50;102;46;46;37;50;102;98] = Val (PErr BadCharSlash) /\
+  parse_path utf8_valid false false [47;37;50;53;50;101;37;50;53;50;101;47;97]
+    = Val (POk [[37;50;101;37;50;101]; [97]]) /\
+  parse_path utf8_valid false false [47;37;99;48;37;97;102] = Val (PErr NotValidUtf8).
+Proof. vm_compute. repeat split. Qed.
+
+(* ---------------------------------------------------------------- (2) ranges ------------------- *)
+
+(* The Range parser never panics (no u64 wrap-around) and every range it returns lies inside the
+   file; a range is empty only when the file is. *)
+Theorem C16_range_parse_sound :
+  forall (hdr : bytes) (size : N), size <= u64_max ->
+  match parse_bytes hdr size with
+  | Panic => False
+  | Val (ROk rs) => Forall (fun r => r_start r + r_length r <= size /\ (r_length r = 0 -> size = 0)) rs
+  | Val (RErr _) => True
+  end.
+Proof. exact parse_bytes_spec. Qed.
+
+(* For every Range header value, every combination of conditional-header outcomes and every file
+   length: no panic, and the status is one of 200 / 206 / 304 / 412 / 416 / 400. *)
+Theorem C16_status_total :
+  forall (flen : N) (range_hdr : option bytes) (c : cond), flen <= u64_max ->
+  exists r, into_response true flen range_hdr c = Val r /\
+    (status r = 200 \/ status r = 206 \/ status r = 304 \/ status r = 412 \/ status r = 416 \/ status r = 400).
+Proof.
+  intros flen rh c H. pose proof (into_response_spec flen rh c H) as S.
+  destruct (into_response true flen rh c) as [r|]; [|contradiction]. exists r. split; [reflexivity|apply S].
+Qed.
+
+(* Range exactness: a 206 serves a non-empty window inside the file and announces exactly it:
+   Content-Range = offset-(offset+length-1)/file_len, computed without wrap-around;
+   a 200 serves the whole file; a 416 says `bytes */file_len`; 304/412/400/416 carry no body;
+   whatever is served lies inside the file. *)
+Theorem C16_range_exact :
+  forall (flen : N) (range_hdr : option bytes) (c : cond) (r : resp), flen <= u64_max ->
+  into_response true flen range_hdr c = Val r ->
+  (status r = 206 ->
+     exists offset length,
+       body r = Some (offset, length) /\ 0 < length /\ offset + length <= flen /\
+       content_range r = Some (CRBytes offset (offset + length - 1) flen) /\
+       offset <= offset + length - 1 /\ offset + length - 1 < flen) /\
+  (status r = 200 -> body r = Some (0, flen) /\ content_range r = None /\ range_hdr = None) /\
+  (status r = 416 -> content_range r = Some (CRUnsat flen) /\ body r = None) /\
+  (status r = 304 \/ status r = 412 \/ status r = 400 -> body r = None) /\
+  (forall offset length, body r = Some (offset, length) -> offset + length <= flen).
+Proof.
+  intros flen rh c r H E. pose proof (into_response_spec flen rh c H) as S. rewrite E in S.
+  destruct S as (_ & S). exact S.
+Qed.
+
+(* F8, as the code was before fixes/F8.patch: `Range: bytes=-5` on an empty file panics
+   (`offset + length - 1` underflows), whatever the conditional headers ... *)
+Theorem C16_F8_refuted_before_fix :
+  exists (flen : N) (hdr : bytes), forall c : cond, into_response false flen (Some hdr) c = Panic.
+Proof. exists 0, [98; 121; 116; 101; 115; 61; 45; 53]. exact F8_before_fix. Qed.
+
+(* ... and the repair changes nothing for non-empty files. *)
+Theorem C16_F8_fix_only_empty_files :
+  forall (flen : N) (range_hdr : option bytes) (c : cond), flen <= u64_max -> flen <> 0 ->
+  into_response false flen range_hdr c = into_response true flen range_hdr c.
+Proof. exact fix_only_empty. Qed.
+
+Example C16_example_ranges :
+  let none := mkCond true None true false None in
+  (* "bytes=5-" on 200000 bytes; "bytes=-5" on an empty file; "bytes=0-0" with a failing If-Match *)
+  into_response true 200000 (Some [98;121;116;101;115;61;53;45]) none
+    = Val (mkResp 206 (Some (CRBytes 5 199999 200000)) (Some (5, 199995))) /\
+  into_response true 0 (Some [98;121;116;101;115;61;45;53]) none
+    = Val (mkResp 416 (Some (CRUnsat 0)) None) /\
+  into_response true 10 (Some [98;121;116;101;115;61;48;45;48]) (mkCond false None true false None)
+    = Val (mkResp 412 (Some (CRBytes 0 0 10)) None).
+Proof. vm_compute. repeat split. Qed.
+
+(* ---------------------------------------------------------------- (3) body = slice ------------- *)
+
+(* For EVERY read-size schedule (how many bytes each read of the file returns), every file content
+   and every on-disk length: if the stream completes, the chunks concatenate to exactly
+   file[offset .. offset+size), that window exists on disk, and no chunk is empty or larger than the
+   chunk size. (A stream over a file shorter than announced therefore never completes normally:
+   it ends with UnexpectedEof.) *)
+Theorem C16_body_is_slice :
+  forall (A : Type) (file : list A) (flen : N) (sched : list N) (size offset : N) (evs : list ev),
+  read_loop FILES_CHUNK_SIZE flen sched size offset 0 = Val evs ->
+  Forall (fun e => match e with EChunk _ n => 0 < n /\ n <= FILES_CHUNK_SIZE | _ => True end) evs /\
+  (finished evs = true ->
+     body_of file evs = slice file offset size /\ (0 < size -> offset + size <= flen)).
+Proof.
+  intros A file flen sched size offset evs H.
+  destruct (read_loop_exact FILES_CHUNK_SIZE A file flen sched size offset 0 evs ltac:(lia) H) as (F & B).
+  split; [exact F|]. intro Fin. destruct (B Fin) as (B1 & B2). rewrite N.sub_0_r in *.
+  split; [exact B1|]. intro P. apply B2. exact P.
+Qed.
+
+(* Progress: when the window exists on disk and every read returns at least one byte, the stream
+   completes (no error, no panic) within `size` reads. *)
+Theorem C16_body_completes :
+  forall (flen : N) (sched : list N) (size offset : N),
+  offset + size <= flen -> flen <= u64_max ->
+  Forall (fun k => 1 <= k) sched -> size <= N.of_nat (length sched) ->
+  exists evs, read_loop FILES_CHUNK_SIZE flen sched size offset 0 = Val evs /\ finished evs = true.
+Proof.
+  intros flen sched size offset Hw Hf HF Hl.
+  apply (read_loop_completes FILES_CHUNK_SIZE flen sched size offset 0); try assumption;
+    unfold FILES_CHUNK_SIZE, u64_max in *; lia.
+Qed.
+
+(* End to end for a 206/200: the decision and the reader compose — the body streamed for the
+   response is exactly the bytes the Content-Range announces. *)
+Theorem C16_response_body_exact :
+  forall (A : Type) (file : list A) (range_hdr : option bytes) (c : cond) (r : resp)
+         (offset length : N) (sched : list N) (evs : list ev),
+  lenN file <= u64_max ->
+  into_response true (lenN file) range_hdr c = Val r -> body r = Some (offset, length) ->
+  read_loop FILES_CHUNK_SIZE (lenN file) sched length offset 0 = Val evs -> finished evs = true ->
+  body_of file evs = slice file offset length /\ offset + length <= lenN file /\
+  (status r = 206 -> content_range r = Some (CRBytes offset (offset + length - 1) (lenN file))).
+Proof.
+  intros A file rh c r offset length sched evs Hs E B H Fin.
+  destruct (C16_range_exact (lenN file) rh c r Hs E) as (P206 & _ & _ & _ & Pin).
+  destruct (C16_body_is_slice A file (lenN file) sched length offset evs H) as (_ & S).
+  destruct (S Fin) as (S1 & _). split; [exact S1|]. split; [apply Pin; exact B|].
+  intro St. destruct (P206 St) as (o & l & B' & _ & _ & CR & _). rewrite B in B'. inversion B'; subst. exact CR.
+Qed.
+
+Example C16_example_body :
+  let file := [10; 11; 12; 13; 14; 15; 16; 17; 18; 19] in
+  (* reads returning 2, 1 and then "as much as possible" bytes; chunk size 65536 *)
+  match read_loop FILES_CHUNK_SIZE 10 [2; 1; 100] 6 3 0 with
+  | Val evs => finished evs = true /\ body_of file evs = [13; 14; 15; 16; 17; 18]
+  | Panic => False
+  end /\
+  (* the file was truncated to 5 bytes after open: UnexpectedEof after the bytes that exist *)
+  read_loop FILES_CHUNK_SIZE 5 [100; 100; 100] 6 3 0 = Val [EChunk 3 2; EErr].
+Proof. vm_compute. repeat split. Qed.
